@@ -22,7 +22,7 @@ def aval(v):
 
 class Cg:
     def __init__(self, rnd):
-        self.c = store.Concretiser(rnd, scales=(1, 1000))
+        self.c = store.Concretiser(rnd, scales=(1, 1000, 43200000))      # the last: 12 h per tick, durations of several days
 
     def mk(self, lst, Event):
         return [Event(timestamp=self.c.dt(e["ts"]), duration=self.c.td(e["dur"]), data={k: copy.deepcopy(VALS[v]) for k, v in e["data"].items()}) for e in lst]
